@@ -238,12 +238,37 @@ def build_api(yp, val, env, real):
     return yp.functor("".join(map(chr, val["n"])), [build_api(yp, a, env, real) for a in val["a"]])
 
 
+def build_api_indirect(yp, val, env, real, held):
+    """the same term with every list tail and every other compound argument reached through a variable that a
+    suspended unification has bound (chains of two variables for tails): what a consumer holds in the middle of a query"""
+    t = val["t"]
+    if t != "c":
+        return build_api(yp, val, env, real)
+
+    def via(term, hops):
+        v = yp.variable()
+        first = v
+        for _ in range(hops - 1):
+            w = yp.variable()
+            g = iter(real.engine.unify(v, w)); next(g); held.append(g)
+            v = w
+        g = iter(real.engine.unify(v, term)); next(g); held.append(g)
+        return first
+    if val["n"] == cps(".") and len(val["a"]) == 2:
+        return yp.listpair(build_api_indirect(yp, val["a"][0], env, real, held), via(build_api_indirect(yp, val["a"][1], env, real, held), 2))
+    args = []
+    for i, a in enumerate(val["a"]):
+        b = build_api_indirect(yp, a, env, real, held)
+        args.append(via(b, 1) if i % 2 == 0 else b)
+    return yp.functor("".join(map(chr, val["n"])), args)
+
+
 def observe(item):
     lit, val, text, pos = item
     from .. import real
     import io, contextlib
     rec = {"lit": lit, "intended": canonical(val), "pos": pos, "text": text[:300], "accepted": False, "obs": {"t": "a", "n": []}, "py": {"none": True},
-           "api_unifies": True, "cross_unifies": True, "atoms_interned": True}
+           "api_unifies": True, "cross_unifies": True, "atoms_interned": True, "py_direct": {"absent": True}}
     many = pos.endswith("+many-atoms")
     if many:
         pos = pos.split("+")[0]
@@ -291,6 +316,18 @@ def observe(item):
         env = {}
         api = build_api(yp, val, env, real)
         rec["api_unifies"] = sum(1 for _ in yp.query("p", [api])) == 1
+        # to_python applied directly to a term whose parts are reached through bound variables
+        if val["t"] == "c":
+            held = []
+            try:
+                term = build_api_indirect(yp, val, {}, real, held)
+                try:
+                    rec["py_direct"] = pyimg(real.engine.to_python(term))
+                except Exception as e:
+                    rec["py_direct"] = {"exception": type(e).__name__}
+            finally:
+                for g in reversed(held):
+                    g.close()
         yp2 = real.YP()
         api2 = build_api(yp2, val, {}, real)
         rec["cross_unifies"] = sum(1 for _ in yp.query("p", [api2])) == 1
@@ -325,7 +362,7 @@ def run(tier, seed):
     recs = [r for o in replay.pool_map(_observe_chunk, chunks) for r in o]
     fn = os.path.join(tlc.WORK, "C16-recs-%d.json" % os.getpid())
     with open(fn, "w") as f:
-        json.dump([{k: r[k] for k in ("lit", "intended", "accepted", "obs", "py", "api_unifies", "cross_unifies", "atoms_interned")} for r in recs], f)
+        json.dump([{k: r[k] for k in ("lit", "intended", "accepted", "obs", "py", "api_unifies", "cross_unifies", "atoms_interned", "py_direct")} for r in recs], f)
     try:
         res = tlc.run("Literals", "Literals.cfg", env={"TRACE_FILE": fn}, tag="lit-%d" % os.getpid(), xss="1g")
     finally:
